@@ -132,53 +132,7 @@ func runC10(r *Run) {
 	for _, f := range r.P.Reachable(es...) {
 		intakeFns[f] = true
 	}
-	for _, lr := range intakeLimits {
-		id := P + ".role." + lr.Param
-		rule := fmt.Sprintf("E3 role/live/exact/own: %s guards the %s with the inclusive operator and rejects on the exceeding edge", lr.Param, lr.What)
-		why := "if the limit is strict, off by one, measured on another quantity or governed by another parameter, requests exactly at the boundary are wrongly rejected or oversized ones accepted"
-		n := 0
-		var bad []string
-		for _, s := range sinks[lr.Param] {
-			if !intakeFns[s.Fn] || (s.Kind != "cmp" && s.Kind != "elemcmp") {
-				continue
-			}
-			if !core.MatchTerm(lr.Measure, s.Other, core.Bind{}) {
-				bad = append(bad, fmt.Sprintf("%s compared with %s at %s (expected the %s)", lr.Param, short(s.Other.String(), 60), r.P.Pos(s.Instr.Pos()), lr.What))
-				continue
-			}
-			exact, rejects, det := r.guardRejects(s)
-			if lr.Eq && s.Op != "!=" && s.Op != "==" {
-				exact = false
-				det = "size must be compared for equality"
-			}
-			if !lr.Eq && (s.Op == "!=" || s.Op == "==") {
-				exact = false
-				det = "limit must be an upper bound, found equality test"
-			}
-			if !exact || !rejects {
-				bad = append(bad, det+" at "+r.P.Pos(s.Instr.Pos()))
-				continue
-			}
-			n++
-		}
-		// foreign parameters measuring the same quantity in intake code
-		if lr.Param != "MaxOperationHashLength" {
-			for other, ss := range sinks {
-				if other == lr.Param {
-					continue
-				}
-				for _, s := range ss {
-					if intakeFns[s.Fn] && s.Kind == "cmp" && s.Other != nil && lr.Measure != "len(_)" && core.MatchTerm(lr.Measure, s.Other, core.Bind{}) && lr.Param != "MaxOperationSize" {
-						bad = append(bad, fmt.Sprintf("the %s is compared with foreign parameter %s at %s", lr.What, other, r.P.Pos(s.Instr.Pos())))
-					}
-				}
-			}
-		}
-		if n == 0 {
-			bad = append(bad, "no guard of this role found in intake code (parameter not live)")
-		}
-		r.R.Check(len(bad) == 0, id, rule, "Protocol."+lr.Param, "pkg/api/protocol/protocol.go", why, fmt.Sprintf("%d guard(s) of this role", n), strings.Join(bad, "; "))
-	}
+	r.checkLimitRoles(P, sinks, intakeFns)
 	// membership roles
 	for _, mr := range []struct{ Param, What string }{
 		{"MultihashAlgorithms", "decoded multihash code"}, {"SignatureAlgorithms", "protected header alg"},
@@ -369,3 +323,56 @@ func (r *Run) checkLoopRequires(id string, f *ssa.Function, what, why string, re
 }
 
 var _ = token.ADD
+
+// checkLimitRoles: the four intake limits, each an inclusive bound on its own
+// quantity governed by its own parameter (shared by C10 and C11: a request the
+// client builds exactly at a limit must be accepted).
+func (r *Run) checkLimitRoles(P string, sinks map[string][]sink, intakeFns map[*ssa.Function]bool) {
+	for _, lr := range intakeLimits {
+		id := P + ".role." + lr.Param
+		rule := fmt.Sprintf("E3 role/live/exact/own: %s guards the %s with the inclusive operator and rejects on the exceeding edge", lr.Param, lr.What)
+		why := "if the limit is strict, off by one, measured on another quantity or governed by another parameter, requests exactly at the boundary are wrongly rejected or oversized ones accepted"
+		n := 0
+		var bad []string
+		for _, s := range sinks[lr.Param] {
+			if !intakeFns[s.Fn] || (s.Kind != "cmp" && s.Kind != "elemcmp") {
+				continue
+			}
+			if !core.MatchTerm(lr.Measure, s.Other, core.Bind{}) {
+				bad = append(bad, fmt.Sprintf("%s compared with %s at %s (expected the %s)", lr.Param, short(s.Other.String(), 60), r.P.Pos(s.Instr.Pos()), lr.What))
+				continue
+			}
+			exact, rejects, det := r.guardRejects(s)
+			if lr.Eq && s.Op != "!=" && s.Op != "==" {
+				exact = false
+				det = "size must be compared for equality"
+			}
+			if !lr.Eq && (s.Op == "!=" || s.Op == "==") {
+				exact = false
+				det = "limit must be an upper bound, found equality test"
+			}
+			if !exact || !rejects {
+				bad = append(bad, det+" at "+r.P.Pos(s.Instr.Pos()))
+				continue
+			}
+			n++
+		}
+		// foreign parameters measuring the same quantity in intake code
+		if lr.Param != "MaxOperationHashLength" {
+			for other, ss := range sinks {
+				if other == lr.Param {
+					continue
+				}
+				for _, s := range ss {
+					if intakeFns[s.Fn] && s.Kind == "cmp" && s.Other != nil && lr.Measure != "len(_)" && core.MatchTerm(lr.Measure, s.Other, core.Bind{}) && lr.Param != "MaxOperationSize" {
+						bad = append(bad, fmt.Sprintf("the %s is compared with foreign parameter %s at %s", lr.What, other, r.P.Pos(s.Instr.Pos())))
+					}
+				}
+			}
+		}
+		if n == 0 {
+			bad = append(bad, "no guard of this role found in intake code (parameter not live)")
+		}
+		r.R.Check(len(bad) == 0, id, rule, "Protocol."+lr.Param, "pkg/api/protocol/protocol.go", why, fmt.Sprintf("%d guard(s) of this role", n), strings.Join(bad, "; "))
+	}
+}
